@@ -564,6 +564,10 @@ class DestHandler:
         if self.states.step == TransactionStep.TRANSFER_COMPLETION:
             self._handle_transfer_completion()
         if self.states.step == TransactionStep.SENDING_FINISHED_PDU:
+            if self.states.packets_ready:
+                # PDUs generated earlier in this cycle (for example a NAK sequence) need to be
+                # retrieved first. The Finished PDU is generated in the next cycle.
+                return
             self._prepare_finished_pdu()
             self._handle_finished_pdu_sent()
         if self.states.step == TransactionStep.WAITING_FOR_FINISHED_ACK:
